@@ -134,7 +134,7 @@ def random_cfgs(tier, base_id, algos=("SOO", "StoSOO", "DOO"), neg=False):
             pat = rnd.choice(["g01", "peak", "flat", "tied", "gneg", "const"])
             shift = rnd.choice([0, 0, -1, -2]) if not neg else rnd.choice([-1, -2, -3])
             cfgs.append({"id": i, "algo": algo, "kind": kind, "K": Kk, "D": D, "box": box, "n": n, "T": n if rnd.random() < 0.8 else rnd.randint(3, n), "prm": prm, "pattern": pat, "shift": shift,
-                         "seed": rnd.randrange(1 << 30), "queries": sorted(rnd.sample(range(3, n), 3)) if rep % 3 == 0 else []})
+                         "seed": rnd.randrange(1 << 30), "queries": sorted(rnd.sample(range(3, n), 3)) if rep % 3 == 0 else [], "rtype": [None, "f32", "f64", "i64", "int", None][rep % 6]})
     return cfgs
 
 
@@ -150,6 +150,12 @@ def full_check(prop, tier, own, rule, explanation, extra=None, neg=False):
     v = chk.validate("Trace_SOO.tla", "Trace_SOO.cfg", trs, "replay", own=own, nontrivial=lambda t: F.count_mk(t) >= 1)
     agree = sum(1 for t in trs if observed(t) in expected[t["id"]])
     chk.notes["replay"] = {"reward_sequences": len(trs), "implementation_run_is_literally_one_of_the_enumerated_behaviours": agree}
+    for t in trs:      # spec -> code: on these exact (integer-reward) inputs the implementation must follow an enumerated behaviour
+        if observed(t) not in expected[t["id"]] and not any(sig.get("id") == t["id"] for sig, _ in chk.violations):
+            path = os.path.join(C.OUT, "replay", "%s_replaydiff_%s.json" % (prop, t["id"]))
+            os.makedirs(os.path.dirname(path), exist_ok=True)
+            json.dump({"module": "Trace_SOO.tla", "cfg": "Trace_SOO.cfg", "verdict": ["replay.not-an-enumerated-behaviour", 0], "trace": t, "observed": observed(t)}, open(path, "w"))
+            chk.violations.append(({"id": t["id"], "source": "replay", "clause": "replay.not-an-enumerated-behaviour", "algo": t["cfg"]["algo"], "rewards": t["cfg"].get("pattern")}, path))
     trs = [t for t in S.pmap(SS.run_soo, random_cfgs(tier, 1500000, neg=neg)) if "skipped" not in t]
     chk.validate("Trace_SOO.tla", "Trace_SOO.cfg", trs, "grid", own=own, nontrivial=nontrivial)
     chk.sample({"cfg": trs[0]["cfg"], "events": trs[0]["ev"][1:5]})
